@@ -568,14 +568,29 @@ class AtLeastKInARow(_KInARow):
 
         # Request sublists for k+1 to allow us to determine the transition
         sublistss = self._build_variable_sublistss(block, level, self.k + 1)
+        var_lists = block.build_variable_lists(level, self.within_block)
         implications = []
-        for sublists in sublistss:
+        for sublists, var_list in zip(sublistss, var_lists):
+            if not sublists:
+                # Fewer than k+1 trials in this window, so there's no transition to look at:
+                if len(var_list) < self.k:
+                    # A run of k doesn't fit, so the level can't be used at all
+                    if var_list:
+                        backend_request.cnfs.append(And([-v for v in var_list]))
+                else:
+                    # Exactly k trials: the level is used for all of them or none of them
+                    for v in var_list[1:]:
+                        implications.append(Iff(var_list[0], v))
+                continue
             # Starting corner case
             implications.append(If(sublists[0][0], And(sublists[0][1:-1])))
             for sublist in sublists:
                 implications.append(If(And([Not(sublist[0]), sublist[1]]), And(sublist[2:])))
             # Ending corner case
             implications.append(If(Not(sublists[-1][1]), Not(Or(sublists[-1][2:]))))
+
+        if not implications:
+            return
 
         (cnf, new_fresh) = block.cnf_fn(And(implications), backend_request.fresh)
 
@@ -639,9 +654,17 @@ class ExactlyKInARow(_KInARow):
                                  backend_request: BackendRequest
                                  ) -> None:
         sublistss = self._build_variable_sublistss(block, level, self.k)
+        var_lists = block.build_variable_lists(level, self.within_block)
         implications = []
 
-        for sublists in sublistss:
+        for sublists, var_list in zip(sublistss, var_lists):
+            if not sublists:
+                # Fewer than k trials in this window, so a run of k doesn't fit,
+                # and the level can't be used at all
+                if var_list:
+                    backend_request.cnfs.append(And([-v for v in var_list]))
+                continue
+
             # Handle the regular cases (1 => 2 ^ ... ^ n ^ ~n+1)
             trim = len(sublists) if self.k > 1 else len(sublists) - 1
             for idx, l in enumerate(sublists[:trim]):
